@@ -5,7 +5,7 @@ and keeper-level LP functions, evaluated inside Coq; spec checker on the real ob
 import json, os
 
 FILES = ["Base/Prelude.v", "Base/Dec.v", "Model/Layer2.v", "Model/C20Check.v", "Proofs/Layer2.v", "Proofs/Layer2Lp.v"]
-ORDER = ["user", "reject", "escrow", "frame", "total-sum", "max", "refund", "held", "nofree"]
+ORDER = ["user", "reject", "escrow", "frame", "total-sum", "max", "refund", "held", "pool-native", "lp-supply", "nofree-step", "nofree"]
 
 
 def observe(R, n, seed=None):
@@ -57,6 +57,8 @@ def features(case, s, users):
             if f in feats:
                 return f
         return "none"
+    if op == "kconvert" and st.get("name") == st.get("name2"):
+        return "same-dapp"
     if any(d["name"] == "" for d in prev["dapps"]) and st.get("name") == "":
         return "empty-name"
     return "none"
@@ -71,7 +73,7 @@ def sig_of(case, clauses, users):
 
 def brief(case, s):
     st = case["steps"][s]
-    hist = [{k: x[k] for k in ("op", "u", "name", "amt", "ok") if k in x} for x in case["steps"][:s + 1]]
+    hist = [{k: x[k] for k in ("op", "u", "name", "name2", "den", "amt", "fee", "ok") if k in x} for x in case["steps"][:s + 1]]
     return {"kind": case["kind"], "min_raw": case["min_raw"], "max_raw": case["max_raw"], "duration": case["duration"],
             "failing_step": s, "history": hist, "before": case["steps"][s - 1] if s else None, "after": st}
 
